@@ -104,12 +104,13 @@ AfterTamper == /\ pc = "tampered"
                /\ pc' = "done"
 
 \* ---- proofs assembled from public data -------------------------------------
-PtA == {"id", "zBv", "other"}
-PtB == {"id", "xD", "other"}
+PtA == {"id", "zBv", "other", "lo"}
+PtB == {"id", "xD", "other", "lo"}
 PtD == {"id", "Bv", "yBv", "other"}
 Targets == {<< >>, << << 0, MA >> >>, << << 1, MB >> >>, << << 0, MA >>, << 1, ME >> >>}
 DoCraft == /\ pc = "sign"
            /\ \E s \in Suites, dp \in Targets, U \in 0 .. 1, a \in PtA, b \in PtB, d \in PtD :
+                 /\ (a = "lo") <=> (b = "lo")
                  /\ \A j \in 1 .. Len(dp) : dp[j][1] < U + Len(dp)
                  /\ Step(Craft(1, s, "plain", << 1 >>, << 2 >>, dp, U, 0, [A |-> a, B |-> b, D |-> d]))
            /\ pc' = "crafted"
